@@ -150,9 +150,7 @@ def requiredNodeNames (row : ClassRow) (nodes : List String) : List String :=
 
 /-- options whose presence changes pin geometry or the node set in ways that are not modelled -/
 def unsupportedOpts : List String :=
-  ["pinnodes", "pinnames", "pinlabels", "pindefs", "anchors",
-   "implicit", "ground", "sground", "rground", "cground", "nground", "pground", "0V", "tlground", "tground",
-   "eground", "eground2", "vcc", "vdd", "vee", "vss", "input", "output", "bidir", "pad", "def", "nodes", "aspect"]
+  ["pinnodes", "pinnames", "pinlabels", "pindefs", "anchors", "def", "nodes", "aspect"]
 
 /-! ### Cpt.R : the rotation table (generated: `Gen.rotTable`, `Gen.rotNormalise`); any angle that misses the table
      goes through cos/sin floats in the code and is not modelled -/
@@ -183,6 +181,28 @@ def rotExact (angle : Rat) (v : Rat × Rat) : Option (Rat × Rat) :=
   | some 2 => some (-v.1, -v.2)
   | some _ => some (v.2, -v.1)
   | none => none
+
+/-! ### angles that are not multiples of 90 degrees: the code uses `cos`/`sin` of the angle.  The model takes the two
+     matrix entries as PARAMETERS (`rots`: total angle ↦ (cos, sin)), supplied by the harness as exact rationals -/
+
+abbrev RotTable := List (Rat × Rat × Rat)
+
+/-- `dot(v, ((c, s), (−s, c)))` -/
+def rotParam (rots : RotTable) (angle : Rat) (v : Rat × Rat) : Option (Rat × Rat) :=
+  (rots.find? (fun e => e.1 == angle)).map fun e => (v.1 * e.2.1 - v.2 * e.2.2, v.1 * e.2.2 + v.2 * e.2.1)
+
+/-- the rotation of the code: `Rdict` where it applies; cos/sin parameters for an angle that is not a multiple of 90;
+    a multiple of 90 that misses the table (possible only if the normalisation is removed) stays unmodelled -/
+def rotCodeP (rots : RotTable) (angle : Rat) (v : Rat × Rat) : Option (Rat × Rat) :=
+  match rotCode angle v with
+  | some w => some w
+  | none => if (quarter angle).isSome then none else rotParam rots angle v
+
+/-- the rotation a hint means: quarter turns exactly, other angles through the same parameters -/
+def rotMeanP (rots : RotTable) (angle : Rat) (v : Rat × Rat) : Option (Rat × Rat) :=
+  match rotExact angle v with
+  | some w => some w
+  | none => rotParam rots angle v
 
 def dirOfAngle (angle : Rat) : Option Dir :=
   match quarter angle with
@@ -238,6 +258,77 @@ def expandAll (elts : List Elt) : Except String (List Elt) := do
     out := out ++ es
   return out
 
+/-! ### implicit nodes (`Cpt.process_implicit_nodes`, `Node.split`) -/
+
+/-- `Cpt.implicit_key`: the implicit / connection key among the options (two of them raise ValueError) -/
+def implicitKey (e : Elt) : Except String (Option String) :=
+  match (Gen.implicitKeys ++ Gen.connectionKeys).filter e.opts.has with
+  | [] => .ok none
+  | [k] => .ok (some k)
+  | _ => .error "multiple-implicit-options"
+
+structure SplitSt where
+  /-- `Node._count`: elements other than annotations and open circuits attached to the node -/
+  counts : List (String × Nat)
+  splitCount : List (String × Nat)
+  implicit : List String
+  newNodes : List String
+
+def cget (m : List (String × Nat)) (k : String) : Nat := ((m.find? (fun e => e.1 == k)).map (·.2)).getD 0
+def cset (m : List (String × Nat)) (k : String) (v : Nat) : List (String × Nat) :=
+  if m.any (fun e => e.1 == k) then m.map (fun e => if e.1 == k then (k, v) else e) else m ++ [(k, v)]
+
+/-- `_cpt_add` → `_node_add` → `Node.append`: attachment counts of all registered nodes -/
+def nodeCounts (elts : List Elt) : List (String × Nat) :=
+  elts.foldl (fun m e =>
+    match lookupRow e.cls with
+    | none => m
+    | some row =>
+      if e.ignore || e.typ == "A" || e.typ == "O" then m else
+      ((row.aux.filter (row.requiredAux.contains ·)).map (e.name ++ "." ++ ·) ++
+        (row.nodePinnames.zip e.nodes).filterMap (fun pn => if pn.1 == "" then none else some pn.2)).foldl
+        (fun m n => cset m n (cget m n + 1)) m) []
+
+def setNth (l : List String) (i : Nat) (v : String) : List String := (l.zipIdx).map (fun x => if x.2 == i then v else x.1)
+
+/-- one element of `for elt in elements.values(): elt.process_implicit_nodes()` (old syntax: the key is an option of the
+    component).  The node at index 0 (positive supplies) or at the last index is detached from the net: unless it is the
+    only connection of that node it is replaced by a new node `<name>_split<k>`. -/
+def splitOne (st : SplitSt) (e : Elt) : Except String (SplitSt × Elt) :=
+  match implicitKey e with
+  | .error m => .error m
+  | .ok none => .ok (st, e)
+  | .ok (some key) =>
+    match lookupRow e.cls with
+    | none => .error s!"unknown-class:{e.cls}"
+    | some row =>
+      if e.nodes.isEmpty then .error "implicit-without-nodes" else
+      let m := if Gen.supplyPositiveKeys.contains key then 0 else e.nodes.length - 1
+      if (row.nodePinnames[m]?).getD "" == "" then .error "implicit-on-undrawn-node" else
+      let n := (e.nodes[m]?).getD ""
+      if (n.splitOn ".").length > 1 then .error "cannot-split-pin" else
+      let count := cget st.counts n + (if st.implicit.contains n then 1 else 0)
+      if e.typ == "A" || count == 1 then
+        .ok ({ st with implicit := st.implicit ++ [n] }, e)
+      else
+        let k := cget st.splitCount n
+        let new := n ++ "_split" ++ toString k
+        .ok ({ counts := cset (cset st.counts n (cget st.counts n - 1)) new 1,
+               splitCount := cset st.splitCount n (k + 1),
+               implicit := st.implicit ++ [new],
+               newNodes := st.newNodes ++ [new] },
+             { e with nodes := setNth e.nodes m new })
+
+def splitImplicit (elts : List Elt) : Except String (List Elt × List String) :=
+  let rec go (st : SplitSt) (todo : List Elt) (done : List Elt) : Except String (List Elt × List String) :=
+    match todo with
+    | [] => .ok (done, st.newNodes)
+    | e :: rest =>
+      match splitOne st e with
+      | .error m => .error m
+      | .ok (st', e') => go st' rest (done ++ [e'])
+  go ⟨nodeCounts elts, [], [], []⟩ elts []
+
 def dedup (l : List String) : List String :=
   l.foldl (fun acc x => if acc.contains x then acc else acc ++ [x]) []
 
@@ -250,10 +341,41 @@ def schNodes (elts : List Elt) : List String :=
       if e.ignore then [] else
       (row.aux.filter (row.requiredAux.contains ·)).map (e.name ++ "." ++ ·) ++ requiredNodeNames row e.nodes)
 
+/-- one of the pin tables of a class whose `pins` is a property -/
+def variant (row : ClassRow) (name : String) : Option (List PinRow × List String) :=
+  (row.variants.find? (fun v => v.1 == name)).map (·.2)
+
+/-- the `pins` property (`allpins` = `pins` merged with `auxiliary`, and the key order of `pins`): the table chosen by
+    `mirror` / `invert` / `mirrorinputs` / `kind` / class name, as the class' property does (the rule is recognised
+    from the source by the translator).  Transistors: P-type devices are drawn with `mirror` reversed, insulated-gate
+    kinds use the `*_pins2` tables, and the gate pin is moved when `size ≠ 1` or `scale ≠ 1`. -/
+def pinsOf (row : ClassRow) (e : Elt) (size scale : Rat) : Option (List PinRow × List String) :=
+  if row.pinsRule == "literal" then some (row.pins, row.pinOrder)
+  else if row.pinsRule == "mirror" then variant row (if e.mirror then "mirror_pins" else "normal_pins")
+  else if row.pinsRule == "invert" then variant row (if e.invert then "invert_pins" else "normal_pins")
+  else if row.pinsRule == "mirrorinputs" then variant row (if e.mirrorinputs then "mirror_pins" else "normal_pins")
+  else if row.pinsRule == "mirrorinputs-xor-mirror" then
+    variant row (if e.mirrorinputs != e.mirror then "mirror_pins" else "normal_pins")
+  else if row.pinsRule == "transistor" then
+    let two := match e.kind with
+      | some k => Gen.transistorPins2Prefixes.any (fun p => k.startsWith p)
+      | none => false
+    let ptype := Gen.transistorPClasses.contains e.cls ||
+      (match e.kind with | some k => Gen.transistorPKinds.contains k | none => false)
+    let m := if ptype then !e.mirror else e.mirror
+    let base := if m then (if e.invert then "mirror_invert_pins" else "mirror_pins")
+                else (if e.invert then "invert_pins" else "normal_pins")
+    if size == 0 then none else
+    (variant row (if two then base ++ "2" else base)).map fun ro =>
+      if size != 1 || scale != 1 then
+        (ro.1.map fun p => if p.name == "g" then { p with y := ((1 - scale) / 2 + p.y * scale + (size - 1) / 2) / size } else p, ro.2)
+      else ro
+  else none
+
 /-- Cpt.nodes: `all_node_names` restricted to registered nodes, in order, duplicates kept -/
-def eltNodes (all : List String) (e : Elt) (row : ClassRow) : List String :=
+def eltNodes (all : List String) (e : Elt) (row : ClassRow) (pinOrder : List String) : List String :=
   let pre := e.name ++ "."
-  let names := requiredNodeNames row e.nodes ++ row.aux.map (pre ++ ·) ++ row.pinOrder.map (pre ++ ·)
+  let names := requiredNodeNames row e.nodes ++ row.aux.map (pre ++ ·) ++ pinOrder.map (pre ++ ·)
                ++ row.aliases.map (pre ++ ·.1)
   names.filter (all.contains ·)
 
@@ -270,7 +392,7 @@ def listIdx (l : List String) (x : String) : Option Nat :=
   go l 0
 
 /-- Cpt.required_pins -/
-def requiredPins (e : Elt) (row : ClassRow) (nodes : List String) : Except String (List PinRow) :=
+def requiredPins (e : Elt) (row : ClassRow) (allpins : List PinRow) (nodes : List String) : Except String (List PinRow) :=
   nodes.foldlM (fun acc n => do
     let pinname ← match listIdx e.nodes n with
       | some i => match row.nodePinnames[i]? with
@@ -280,7 +402,7 @@ def requiredPins (e : Elt) (row : ClassRow) (nodes : List String) : Except Strin
         let f := lastField n
         pure (match row.aliases.find? (·.1 == f) with | some a => a.2 | none => f)
     if pinname == "" then pure acc else
-    match row.pins.find? (·.name == pinname) with
+    match allpins.find? (·.name == pinname) with
     | some p => pure (acc ++ [p])
     | none => throw s!"unknown-pin:{pinname}") []
 
@@ -326,6 +448,9 @@ structure PreResolved where
   skip : Bool
   ignored : Bool
   onePort : Bool
+  /-- `Cpt.tf`: `do_transpose and invert` negates x, `do_transpose and mirror` negates y -/
+  flipX : Bool
+  flipY : Bool
 
 def resolvePre (spacing : Rat) (all : List String) (e : Elt) : Except String PreResolved := do
   let some row := lookupRow e.cls | throw s!"unknown-class:{e.cls}"
@@ -337,13 +462,14 @@ def resolvePre (spacing : Rat) (all : List String) (e : Elt) : Except String Pre
   let some sz := e.size row | throw "bad-size"
   let some sc := e.scale | throw "bad-scale"
   if e.ignore then
-    return ⟨e.name, e.cls, [], [], row, ang, sz, sc, 0, 0, e.stretch row, true, true, false⟩
-  let nodes := eltNodes all e row
-  let pins ← requiredPins e row nodes
+    return ⟨e.name, e.cls, [], [], row, ang, sz, sc, 0, 0, e.stretch row, true, true, false, false, false⟩
+  let some (allpins, pinOrder) := pinsOf row e sz sc | throw s!"no-pin-table:{e.cls}"
+  let nodes := eltNodes all e row pinOrder
+  let pins ← requiredPins e row allpins nodes
   if pins.length != nodes.length then throw "pin-mismatch"
   if row.defaultAspect == 0 then throw "zero-aspect"
   return ⟨e.name, e.cls, nodes, pins, row, ang, sz, sc, row.w / row.defaultAspect, row.w * sz * spacing, e.stretch row, skip,
-          false, row.nodePinnames == ["+", "-"] && row.aux.isEmpty⟩
+          false, row.nodePinnames == ["+", "-"] && row.aux.isEmpty, row.doTranspose && e.invert, row.doTranspose && e.mirror⟩
 
 /-- Cpt.scales for one pin -/
 def pinScale (p : PreResolved) (pin : PinRow) : Except String Rat :=
@@ -356,7 +482,7 @@ def pinCoord (rot : Rat → Rat × Rat → Option (Rat × Rat)) (p : PreResolved
   match pinScale p pin with
   | .error e => .error e
   | .ok s =>
-    match rot p.angle (pin.x * p.row.w, pin.y * p.h) with
+    match rot p.angle ((if p.flipX then -pin.x else pin.x) * p.row.w, (if p.flipY then -pin.y else pin.y) * p.h) with
     | some v => .ok (v.1 * s, v.2 * s)
     | none => .error "unsupported-angle"
 
@@ -473,19 +599,25 @@ def Resolved.sizeOk (k : Rat) (r : Resolved) : Bool :=
 structure Netlist where
   spacing : Rat
   elts : List Elt
+  /-- cos / sin of the total angles that are not multiples of 90 degrees (parameters) -/
+  rots : RotTable := []
 deriving Repr
 
 def resolveAll (rot : Rat → Rat × Rat → Option (Rat × Rat)) (n : Netlist) : Except String (List String × List Resolved) :=
   match expandAll n.elts with
   | .error m => .error m
-  | .ok elts =>
-    match mapE (resolveWith rot n.spacing (schNodes elts)) elts with
+  | .ok elts0 =>
+    match splitImplicit elts0 with
     | .error m => .error m
-    | .ok rs => .ok (schNodes elts, rs)
+    | .ok (elts, newNodes) =>
+      let all := schNodes elts0 ++ newNodes
+      match mapE (resolveWith rot n.spacing all) elts with
+      | .error m => .error m
+      | .ok rs => .ok (all, rs)
 
 /-- spec of a netlist: drawn nodes and hint items, with the rotation a hint *means* -/
 def specOf (n : Netlist) : Except String Spec := do
-  let (all, rs) ← resolveAll rotExact n
+  let (all, rs) ← resolveAll (rotMeanP n.rots) n
   if !(decide (0 < n.spacing)) then throw "bad-spacing"
   if !(rs.all (fun r => r.skip || match r.specItem n.spacing with
         | some (.hint _) => decide (0 ≤ r.size)
@@ -494,7 +626,7 @@ def specOf (n : Netlist) : Except String Spec := do
 
 /-- the model of what the code builds -/
 def graphsOf (n : Netlist) : Except String (List String × Graphs) := do
-  let (all, rs) ← resolveAll rotCode n
+  let (all, rs) ← resolveAll (rotCodeP n.rots) n
   return (all, makeGraphs rs)
 
 /-! ### partition of nodes (Cnodes) and canonical form of the graphs -/
@@ -582,7 +714,7 @@ def placeAxis (k : Rat) (nodes : List String) (links : List (String × String)) 
 /-- witness layout for the consistency of a hint set: longest path over the graphs the hints *mean*
     (exact quarter-turn rotation), so that it also exists where the code's rotation table does not apply -/
 def placeModel (n : Netlist) : Except String Layout := do
-  let (all, rs) ← resolveAll rotExact n
+  let (all, rs) ← resolveAll (rotMeanP n.rots) n
   let g := makeGraphs rs
   let some xs := placeAxis n.spacing all g.xlinks g.xedges | throw "x-cycle"
   let some ys := placeAxis n.spacing all g.ylinks g.yedges | throw "y-cycle"
